@@ -115,6 +115,8 @@ func checkC10(c *an.Ctx) {
 	// $ARGS is the runner's env entry: nothing inherited may be layered over the runner's env
 	processEnvEntry(c, "C10.1")
 	stableCombinators(c, "C10.1")
+	// $ARGS carries the words after `--` verbatim, '=' included
+	wholeValues(c, "C10.1")
 
 	configVariablesFlow(c, "C10.2")
 	dashHandling(c, "C10.3")
@@ -123,6 +125,7 @@ func checkC10(c *an.Ctx) {
 	// "the task fails before that command executes": a rendering error is an error of Execute that is not an
 	// exit status, and the job walk fails the task on every such error whatever allow_failure says (= C06.3)
 	executeTable(c, r, "C10.4", false)
+
 }
 
 func baseVariables(c *an.Ctx, r *runnerRoles, rule string) {
